@@ -43,12 +43,12 @@ CHECKS = {
                 text="Seeded streams of outgoing entities and incoming stanzas of every supported kind through the assembled "
                      "protocol stack under all 16 module selections (with/without encryption layers); exactly-1 / exactly-0 oracle "
                      "from a hand-written routing table.",
-                note="Trusted: routing table (Appendix A of DESIGN.md), reference equality; stanza shapes from entity docstrings."),
+                note="Trusted: routing table (written down in checks/c06.py from the layer sources), reference equality; stanza shapes from entity docstrings."),
     "C07": dict(level="exploration", design="5/C07", technique="deterministic simulation with injected notifications/calls/pings/"
                 "unpresentable messages and duplicate-delivery faults; per-delivery acknowledgement history oracle",
                 text="Seeded injection of every notification/call/ping/unsupported-message kind amid other traffic under any module "
                      "selection; per-delivery exactly-one matching ack/receipt/pong at the wire.",
-                note="Trusted: server double, acknowledgement table (Appendix A)."),
+                note="Trusted: server double, acknowledgement table (written down in checks/c07.py)."),
     "C08": dict(level="exploration", design="5/C08", technique="deterministic simulation: outstanding-request histories with reply "
                 "reordering/duplication/unknown-id fault injection against a reference registry model",
                 text="Seeded histories of up to 6 outstanding requests of every kind and result/error/duplicate/unknown-id/non-reply "
@@ -58,19 +58,21 @@ CHECKS = {
                 "asyncore loop under seeded interleavings with line-level pre-emption and short-send faults",
                 text="Seeded interleavings (sync points, PY_START and LINE pre-emption) of concurrent senders through the real "
                      "coder/noise/segments/network layers and asyncore dispatcher; oracle: whole frames, nonce order on a strict "
-                     "peer, multiset equality of decoded stanzas, at two observation points.",
+                     "peer, multiset equality of decoded stanzas, at two observation points; 30% of the histories span 2-3 "
+                     "connections of the same stack with the senders still sending.",
                 note="Trusted: kernel, Noise responder, reference codec. GIL-releasing C calls are atomic in the model."),
     "C12": dict(level="fault_enumeration", design="5/C12", technique="fault injection: every layer x direction x position as failure "
                 "site (natural and injected exceptions) inside a deterministic thread simulation; lock-state invariant and follow-up liveness",
                 text="Enumerates failure site (each layer of the default stack) x direction x position x follow-up thread; natural "
-                     "faults where they exist, injected exceptions elsewhere; invariant: no layer lock held at quiescence, "
-                     "follow-ups complete, nothing stuck.",
+                     "faults where they exist (incl. a frame exactly at the size limit and a send while no session is ready), "
+                     "injected exceptions elsewhere, upward failures also under a receiver that survives them; invariant: no "
+                     "layer lock held at quiescence, follow-ups complete, nothing stuck.",
                 note="Injected faults are instance-level wrappers raising once; trusted: kernel."),
     "C13": dict(level="fault_enumeration", design="5/C13", technique="crash-point enumeration at every SQL statement/commit boundary of "
                 "seeded store-operation histories, reopen and compare with a reference model",
                 text="Seeded op sequences over the real LiteAxolotlStore; for every statement/commit boundary of every op: crash "
                      "(rollback + close), reopen, each record in {previous,new} and an existing record never missing; plus "
-                     "close/reopen equality and conversations continuing across restarts.",
+                     "close/reopen equality (conversations continuing across restarts are exercised by C03).",
                 note="Trusted: SQLite atomic commit; process death modelled as rollback of the open transaction."),
     "C14": dict(level="exploration", design="5/C14", technique="deterministic simulation of login/upload/loss/restart/crash histories "
                 "with a per-key life-cycle reference model",
@@ -79,8 +81,8 @@ CHECKS = {
                 note="Trusted: server double, life-cycle model, curve library for signature verification."),
     "C15": dict(level="fault_enumeration", design="5/C15", technique="fault enumeration on a simulated blob channel: every byte flip/"
                 "truncation/wrong key/kind, 2x2 interop with an independent cipher",
-                text="Lengths 0..64 exhaustively + seeded larger; every single-byte corruption position, every truncation, wrong "
-                     "key/kind; yowsup MediaCipher x independent reference in all four pairings.",
+                text="Lengths 0..64 exhaustively + seeded larger; every single-byte corruption position, every truncation, "
+                     "extensions after/before the tag, wrong key/kind; yowsup MediaCipher x independent reference in all four pairings.",
                 note="No scheduling dimension (stated in evidence); trusted: `cryptography` primitives, reference implementation."),
     "C16": dict(level="exploration", design="5/C16", technique="deterministic simulation of connection-event histories under virtual time "
                 "(real dispatchers over simulated sockets) against a lifecycle reference machine",
@@ -90,8 +92,8 @@ CHECKS = {
                 note="Trusted: kernel, SimSocket TCP model, Noise responder."),
     "C17": dict(level="exploration", design="5/C17", technique="deterministic multi-account simulation of reinstall/restart/message "
                 "histories with a pin reference model",
-                text="Seeded histories over 2-3 accounts with identity reinstall, restarts, auto-trust on/off; oracle over stored "
-                     "pins, emitted stanzas and deliveries.",
+                text="Seeded histories over 3 accounts (1:1 and group messages both ways, identity reinstall, the server's "
+                     "identity-change notification, restarts, auto-trust on/off and toggled); oracle over stored pins and deliveries.",
                 note="Trusted: server double, pin model."),
     "C18": dict(level="exploration", design="5/C18", technique="deterministic simulation of stack shapes with loop-task scheduling of "
                 "deferred events + exhaustive flag sweep, propagation reference model",
